@@ -175,7 +175,7 @@ func TestC16(t *testing.T) {
 			rt.Fatalf("C16: sample model %s does not load: %v", sm.name, lr.err)
 		}
 		n := rapid.SampledFrom([]int{1, 1, 2, 2, 3, 3, 4, 5, 6, 9, 17, 33}).Draw(rt, "N")
-		s := rapid.IntRange(1, 4).Draw(rt, "seq")
+		s := rapid.SampledFrom([]int{1, 1, 2, 2, 3, 4, 4, 9, 33, 40}).Draw(rt, "seq")
 		if sm.name == "ndm" {
 			n = rapid.IntRange(1, 3).Draw(rt, "Nndm")
 		}
@@ -198,7 +198,7 @@ func TestC16(t *testing.T) {
 		if lr.err != nil || lr.panicked {
 			rt.Fatalf("C16: generated model does not load: %v %v: %v", lr.err, lr.panicVal, gg)
 		}
-		n := rapid.SampledFrom([]int{1, 1, 2, 2, 3, 3, 4, 5, 2, 3, 9, 17}).Draw(rt, "N")
+		n := rapid.SampledFrom([]int{1, 1, 2, 2, 3, 3, 4, 5, 2, 3, 9, 17, 33, 40}).Draw(rt, "N")
 		feed := gg.feed(rt, n)
 		bm := &batchModel{desc: gg.String(), m: lr.m, inBatch: map[string]int{}, outBatch: map[string]int{}, depth: len(gg.nodes) + 1, unitRecurrent: gg.feats["recurrent-input-size-1"] > 0,
 			unitMatMul: gg.feats["matmul-unit-matrix-for-single-sample"] > 0}
